@@ -33,6 +33,10 @@ def op_lnotab(c):
         if c.get("version") is None:
             import xdis
             ps = list(xdis.findlinestarts(f, dup_lines=c.get("dup", False)))
+        elif c.get("triple"):
+            # the public function with the version as load_module reports it: a 3-tuple such as (3, 5, 2)
+            import xdis
+            ps = list(xdis.findlinestarts(f, dup_lines=c.get("dup", False), version_tuple=tuple(c["triple"])))
         else:
             ps = list(_opc(c["version"]).findlinestarts(f, dup_lines=c.get("dup", False)))
     except Exception as e:
